@@ -61,7 +61,7 @@ def runs(tier):
     cfgs.append(mk([11, 2], kind="ds", meta=dict(sweep.META0, tdim=True), shuffle=True))
     cfgs.append(mk([12], kind="df", meta=dict(sweep.META0, cattr=True), shuffle=True))
     cfgs.append(mk([2], nca=1, cases=[[v] for v in (11, 3, 7, 1, 9, 12, 5, 2, 10, 4, 8)], kind="ds", meta=dict(sweep.META0), shuffle=True))
-    out.append(dict(name="C03_big", configs=cfgs, max_perm=4, check=False, simulate=60 if tier == "quick" else 800, depth=200))
+    out.append(dict(name="C03_big", configs=cfgs, max_perm=4, check=False, simulate=60 if tier == "quick" else 4000, depth=200))
     return out
 
 
@@ -77,7 +77,7 @@ def run(rep):
     if bad.violated != "RowPairing":
         raise tlc.TLCError("self-test failed: DfSettings='shuffled' (defect F2) not rejected by RowPairing")
     rep.note("self-test: DfSettings='shuffled' (pinned code, F2) violates RowPairing in TLC, as expected")
-    sweep.drive(rep, runs(rep.tier), "C03", n_variants=1 if rep.tier == "quick" else 3)
+    sweep.drive(rep, runs(rep.tier), "C03", n_variants=1 if rep.tier == "quick" else 6)
 
 
 def replay(rep, saved):
